@@ -9,7 +9,7 @@ Proof. reflexivity. Qed.
 
 Lemma discarded_unchanged c v f e : classify c f e = None -> step c v f e = clear_out f.
 Proof.
-  destruct c as [mc mt lc]; destruct f as [s i r fl l a o hl]; destruct e as [| | | | |code id k data];
+  destruct c as [mc mt lc]; destruct f as [s i r fl l a o hl ns pk]; destruct e as [| | | | |code id k data];
     try discriminate.
   { cbn. destruct a; [destruct (r >? 0); discriminate|reflexivity]. }
   unfold classify; unfold_events; cbn.
@@ -74,7 +74,7 @@ Definition hcalls_of (c : cfg) (f : fsm) (e : Ev) : list HCall :=
 
 Lemma hlog_step c v f e : hlog (step c v f e) = hcalls_of c f e ++ hlog f.
 Proof.
-  destruct c as [mc mt lc]; destruct f as [s i r fl l a o hl]; destruct e as [| | | | |code id k data].
+  destruct c as [mc mt lc]; destruct f as [s i r fl l a o hl ns pk]; destruct e as [| | | | |code id k data].
   1-4: destruct s; destruct v as [[|] [|]]; reflexivity.
   - unfold step, timeout; cbn. destruct a; destruct (r >? 0); destruct s; reflexivity.
   - unfold hcalls_of, classify; unfold_events; cbn.
@@ -127,9 +127,9 @@ Proof.
   cbn [map app xtrace xstep trace run]. rewrite IH. rewrite <- !app_assoc. reflexivity.
 Qed.
 
-Lemma xtrace_prod c v fixed restored es killed :
-  xtrace c v fixed init (prod_history restored es killed)
-  = trace c v (if restored then restore fixed c init else init) es.
+Lemma xtrace_prod i0 pk0 c v fixed restored es killed :
+  xtrace c v fixed (init_id i0 pk0) (prod_history restored es killed)
+  = trace c v (if restored then restore fixed c (init_id i0 pk0) else init_id i0 pk0) es.
 Proof.
   unfold prod_history. destruct restored; cbn [app xtrace xstep]; rewrite xtrace_events;
     destruct killed; cbn; rewrite ?app_nil_r; reflexivity.
@@ -137,24 +137,24 @@ Qed.
 
 (* alternation over the extended alphabet, under the production discipline; a restored automaton
    starts with an up outstanding (the session layer restores its own "open" flags) *)
-Lemma alternates_ext c v fixed restored es killed :
-  alternates restored (xtrace c v fixed init (prod_history restored es killed)) = true.
+Lemma alternates_ext i0 pk0 c v fixed restored es killed :
+  alternates restored (xtrace c v fixed (init_id i0 pk0) (prod_history restored es killed)) = true.
 Proof.
   rewrite xtrace_prod. destruct restored.
-  - exact (alternates_from c v es (restore fixed c init)).
-  - exact (alternates_from c v es init).
+  - exact (alternates_from c v es (restore fixed c (init_id i0 pk0))).
+  - exact (alternates_from c v es (init_id i0 pk0)).
 Qed.
 
-Lemma up_iff_opened_ext c v fixed restored es :
-  up_after restored (xtrace c v fixed init (prod_history restored es false))
-  = is_opened (st (xrun c v fixed init (prod_history restored es false))).
+Lemma up_iff_opened_ext i0 pk0 c v fixed restored es :
+  up_after restored (xtrace c v fixed (init_id i0 pk0) (prod_history restored es false))
+  = is_opened (st (xrun c v fixed (init_id i0 pk0) (prod_history restored es false))).
 Proof.
   rewrite xtrace_prod.
   assert (R : forall f tail, xrun c v fixed f (map XE es ++ tail) = xrun c v fixed (run c v f es) tail).
   { induction es as [|e es IH]; intros f tail; [reflexivity|]. cbn. apply IH. }
   unfold prod_history. destruct restored; cbn [app xrun xstep]; rewrite R; cbn [xrun].
-  - exact (up_iff_opened_from c v es (restore fixed c init)).
-  - exact (up_iff_opened_from c v es init).
+  - exact (up_iff_opened_from c v es (restore fixed c (init_id i0 pk0))).
+  - exact (up_iff_opened_from c v es (init_id i0 pk0)).
 Qed.
 
 (* outside that discipline alternation fails: Kill in Opened followed by a new negotiation reports
@@ -240,4 +240,42 @@ Proof.
   repeat split.
   - intros s H1 H2; destruct s; try contradiction; cbn; discriminate.
   - intros s H1 H2 H3; destruct s; try contradiction; reflexivity.
+Qed.
+
+(* ------------------------------------------------------------ 15. the Identifier policy of /repo HEAD *)
+
+(* With the policy head_pick i0 the model's counter behaves as the literal nextID() of fsm.go:
+   f.id++ modulo 256, starting from i0. *)
+Definition IdInv (i0 : Z) (f : fsm) : Prop :=
+  pick f = head_pick i0 /\ idc f = (i0 + Z.of_nat (nsent f)) mod 256.
+
+Lemma head_pick_succ i0 n : head_pick i0 n = (i0 + Z.of_nat (S n)) mod 256.
+Proof. unfold head_pick. f_equal. lia. Qed.
+
+Lemma idinv_step i0 c v f e : IdInv i0 f -> IdInv i0 (step c v f e).
+Proof.
+  destruct f as [s i r fl l a o hl ns pk]; unfold IdInv; cbn; intros (-> & ->).
+  destruct e as [| | | | |code id k data].
+  1-4: destruct s; destruct v as [[|] [|]]; cbn; unfold next_id; cbn; rewrite ?head_pick_succ; auto.
+  - unfold step, timeout; cbn. destruct a; destruct (r >? 0); destruct s; cbn; unfold next_id; cbn;
+      rewrite ?head_pick_succ; auto.
+  - unfold step, input, rcrEvent, rcaEvent, rcnEvent, rtrEvent, rtaEvent, rxjEvent, rucEvent, rxrEvent, reply; cbn.
+    destruct (lcp c); destruct v as [[|] [|]]; destruct (code_of code); destruct s; try destruct k; cbn;
+      repeat match goal with |- context [if ?b then _ else _] => destruct b end; cbn; unfold next_id; cbn;
+      rewrite ?head_pick_succ; auto.
+Qed.
+
+Lemma idinv_run i0 c v es : forall f, IdInv i0 f -> IdInv i0 (run c v f es).
+Proof. induction es as [|e es IH]; intros f I; [exact I|]. cbn. apply IH, idinv_step, I. Qed.
+
+Lemma head_id_policy i0 c v es :
+  0 <= i0 < 256 ->
+  let f := run c v (init_id i0 (head_pick i0)) es in
+  next_id f = (idc f + 1) mod 256.
+Proof.
+  intros R f.
+  assert (I : IdInv i0 f).
+  { apply idinv_run. split; cbn; [reflexivity|]. rewrite Z.add_0_r. symmetry; apply Z.mod_small; exact R. }
+  destruct I as (P & Q). unfold next_id. rewrite P, Q. unfold head_pick.
+  rewrite Zplus_mod_idemp_l. reflexivity.
 Qed.
